@@ -344,13 +344,35 @@ NMV_KIND(ls_db, 1)
 // C order, assign view(index...) = value, report the view's shape, the view read back, the whole source
 // (logical order) and the number of flat buffer entries that changed
 // ---------------------------------------------------------------------------------------------------
-template <typename Src, typename MV>
+// view(i...) with the indices unpacked (the spelling the property names); more than 3 indices go packed
+template <bool AllowPacked = true, typename MV>
+static decltype(auto) call_variadic(MV& mv, const std::vector<size_t>& idx) {
+    constexpr auto D = meta::fixed_dim_v<meta::remove_cvref_t<MV>>;
+    if constexpr (!meta::is_fail_v<decltype(D)>) {
+        if constexpr (D == 1) return mv(idx[0]);
+        else if constexpr (D == 2) return mv(idx[0], idx[1]);
+        else if constexpr (D == 3) return mv(idx[0], idx[1], idx[2]);
+        else if constexpr (AllowPacked) return mv(idx);
+        else throw std::runtime_error("more than 3 indices");
+    } else {
+        switch (idx.size()) {
+            case 1: return mv(idx[0]);
+            case 2: return mv(idx[0], idx[1]);
+            case 3: return mv(idx[0], idx[1], idx[2]);
+        }
+        if constexpr (AllowPacked) return mv(idx);
+        else throw std::runtime_error("more than 3 indices");
+    }
+}
+
+// PackedRead: read the view back through view(packed_index) (default) or through view(i...) as well
+template <bool PackedRead = true, typename Src, typename MV>
 static void run_mview(const J& A, W& w, Src& src, MV&& mv) {
     using U = meta::remove_cvref_t<MV>;
     if constexpr (meta::is_maybe_v<U>) {
         if (!nm::has_value(mv)) { w.key("hv").boolean(false); return; }
         auto v = *mv;
-        return run_mview(A, w, src, v);
+        return run_mview<PackedRead>(A, w, src, v);
     } else {
         auto idx = A["index"].ivec<size_t>();
         int value = (int)A["value"].as_int();
@@ -361,14 +383,17 @@ static void run_mview(const J& A, W& w, Src& src, MV&& mv) {
         std::vector<int> before(src.data_.begin(), src.data_.end());
         bool inside = idx.size() == vshape.size();
         for (size_t i = 0; inside && i < idx.size(); i++) inside = idx[i] < vshape[i];
-        if (inside) { mv(idx) = value; w.key("written").boolean(true); }
+        if (inside) { call_variadic<PackedRead>(mv, idx) = value; w.key("written").boolean(true); }
         else w.key("written").boolean(false);
         size_t changed = before.size() == src.data_.size() ? 0 : SIZE_MAX;
         for (size_t k = 0; changed != SIZE_MAX && k < before.size(); k++) changed += before[k] != src.data_[k];
         w.key("flat_changed").num(changed);
         w.key("view").beg_arr();
         if (safe_total(vshape) != SIZE_MAX && safe_total(vshape) <= 4096)
-            for (odometer o(vshape); !o.done; o.next()) w.num((int)std::as_const(mv)(o.idx));
+            for (odometer o(vshape); !o.done; o.next()) {
+                if constexpr (PackedRead) w.num((int)std::as_const(mv)(o.idx));
+                else w.num((int)call_variadic<false>(std::as_const(mv), o.idx));
+            }
         w.end_arr();
         auto sshape = shape_of(src);
         w.key("sshape").beg_arr(); for (auto e : sshape) w.num(e); w.end_arr();
@@ -446,7 +471,7 @@ static void mview_dynamic(const J& A, W& w) {
     Src a; make_src(A, a);
     const std::string& v = A["view"].as_str();
     const J& args = A["args"];
-    if (v == "mutable_ref") return run_mview(A, w, a, view::mutable_ref(a));
+    if (v == "mutable_ref") return run_mview<false>(A, w, a, view::mutable_ref(a));
     if (v == "mutable_flatten") return run_mview(A, w, a, view::mutable_flatten(a));
     if (v == "mutable_reshape") {
         const std::string enc = args.has("enc") ? args["enc"].as_str() : std::string("vec");
